@@ -2,9 +2,11 @@
   Proofs.C13Keys — the wallet's key table with imported keys (.others) of both forms (core only).
   make_wallet keeps TWO slices: `keys` (imported keys first, then the deterministic ones) and `segwit`, made with
   len(keys) and filled AT THE KEY'S INDEX, an uncompressed key's entry staying nil. Model.WalletTx keeps one record per
-  index; here: the record table is exactly the two slices zipped index by index, `hashToKeyIdx` is the one-loop
-  look-up of wallet.go over the two slices, and in a table that contains keys of both forms a P2SH-P2WPKH / P2PKH input
-  is attributed to a key whose own redeem script / key hash is the one in the spent script.
+  index; here: the record table equals a SECOND, slice-level transcription of that loop (`segTable`) zipped index by
+  index, `scriptHashToKeyIdx` equals the one-loop look-up written over the two slices, and in a table that contains keys
+  of both forms a P2SH-P2WPKH / P2PKH input is attributed to a key whose own redeem script / key hash is the one in the
+  spent script. (`segTable` / `scriptHashToKeyIdxSlices` are model-level definitions too: nothing here is generated from
+  wallet.go; the link to the Go code is the harness's .others corpus.)
 -/
 import GocoinV.Proofs.C13Sig
 import GocoinV.Proofs.C13Demo
@@ -17,9 +19,9 @@ theorem segTable_length (H : Addr.Hashes) (b : Bool) (pubs : List Bytes) : (segT
 /-- the record of index i carries `segwit[i]` of the separately built slice: [] for a nil entry -/
 theorem mkKey_seg_eq (H : Addr.Hashes) (b : Bool) (p : Bytes) :
     (mkKey H b p).segH160 =
-      ((if p.length ≠ 33 then none else some (if b then zero20 else H.hash160 ([0, 20] ++ H.hash160 p))) : Option Bytes).getD [] := by
+      ((if p.length ≠ 33 then none else if b then none else some (H.hash160 ([0, 20] ++ H.hash160 p))) : Option Bytes).getD [] := by
   unfold mkKey
-  by_cases h : p.length = 33 <;> simp [h]
+  by_cases h : p.length = 33 <;> cases b <;> simp [h]
 
 theorem keyTable_zip (H : Addr.Hashes) (b : Bool) (pubs : List Bytes) (i : Nat) :
     (keyTable H b pubs)[i]? =
@@ -55,11 +57,11 @@ theorem find?_congr' {α} (p q : α → Bool) (l : List α) (h : ∀ x ∈ l, p 
     simp only [List.find?_cons, h a (List.mem_cons_self ..)]
     rw [ih (fun x hx => h x (List.mem_cons_of_mem _ hx))]
 
-/-- hash_to_key_idx: the model's look-up in the record table IS the one loop of wallet.go over keys[] and the
-    index-parallel segwit[] (nil entries skipped), for every 20-byte hash (all the look-ups pass 20 bytes) -/
-theorem hashToKeyIdx_is_slice_loop (H : Addr.Hashes) (b : Bool) (pubs : List Bytes) (h : Bytes) (hne : h ≠ []) :
-    hashToKeyIdx (keyTable H b pubs) h = hashToKeyIdxSlices H pubs (segTable H b pubs) h := by
-  unfold hashToKeyIdx hashToKeyIdxSlices
+/-- scripthash_to_key_idx: the model's look-up in the record table equals the one loop over the index range of keys[]
+    reading the index-parallel segwit[] transcription (entries that are nil or not a P2SH address skipped), for EVERY h -/
+theorem scriptHashToKeyIdx_is_slice_loop (H : Addr.Hashes) (b : Bool) (pubs : List Bytes) (h : Bytes) :
+    scriptHashToKeyIdx (keyTable H b pubs) h = scriptHashToKeyIdxSlices pubs (segTable H b pubs) h := by
+  unfold scriptHashToKeyIdx scriptHashToKeyIdxSlices
   rw [findIdx?_eq_find?_range _ ⟨[], [], []⟩]
   have hlen : (keyTable H b pubs).length = pubs.length := by simp [keyTable]
   rw [hlen]
@@ -73,11 +75,9 @@ theorem hashToKeyIdx_is_slice_loop (H : Addr.Hashes) (b : Bool) (pubs : List Byt
   have e1 : (keyTable H b pubs).getD i ⟨[], [], []⟩ =
       { pub := pubs[i], h160 := H.hash160 pubs[i], segH160 := ((segTable H b pubs).getD i none).getD [] } := by
     simp [List.getD, hz]
-  have e2 : pubs.getD i [] = pubs[i] := by simp [List.getD, hp]
-  rw [e1, e2]
+  rw [e1]
   cases hs : (segTable H b pubs).getD i none with
-  | none =>
-    simp [hne]
+  | none => simp
   | some s => simp
 
 /-- a record whose SegWit hash has 20 bytes is the record of a COMPRESSED key, and the hash is the hash of that
@@ -88,23 +88,13 @@ theorem seg_of_len20 (H : Addr.Hashes) (p : Bytes) (hl : (mkKey H false p).segH1
   · exact ⟨h, by simp [mkKey, h]⟩
   · simp [mkKey, h] at hl
 
-/-- NoCross does not exclude tables with uncompressed keys: such a key's (absent) SegWit entry clashes with nothing -/
-theorem noCross_uncompressed_ok (H : Addr.Hashes) (b : Bool) (p q : Bytes) (hq : q.length ≠ 33)
-    (hash_len : ∀ x, (H.hash160 x).length = 20) : (mkKey H b p).h160 ≠ (mkKey H b q).segH160 := by
-  intro e
-  have h1 : (mkKey H b p).h160.length = 20 := hash_len _
-  have h2 : (mkKey H b q).segH160 = [] := by simp [mkKey, hq]
-  rw [e, h2] at h1
-  simp at h1
-
 /-- sign_tx on a P2SH-P2WPKH output of the compressed key at index k, in a table that may also hold uncompressed
     (imported) keys at any positions: the input is attributed to a compressed key q whose OWN redeem script
     00 14 HASH160(q) hashes to the script hash being spent; that redeem script is what goes into scriptSig, q's public
     key into the witness, and the BIP143 script code is q's -/
 theorem p2sh_attribution (H : Addr.Hashes) (c : Cfg) (pubs : List Bytes) (sig : SigFn) (i k : Nat) (p : Bytes) (v : Nat)
     (hash_len : ∀ b, (H.hash160 b).length = 20)
-    (hk : pubs[k]? = some p) (hp : p.length = 33) (hb : c.bech32 = false)
-    (no_cross : NoCross (keyTable H c.bech32 pubs)) :
+    (hk : pubs[k]? = some p) (hp : p.length = 33) (hb : c.bech32 = false) :
     ∃ j q, pubs[j]? = some q ∧ q.length = 33 ∧
       H.hash160 ([0, 20] ++ H.hash160 q) = H.hash160 ([0, 20] ++ H.hash160 p) ∧
       signInput H c (keyTable H c.bech32 pubs) sig i
@@ -116,7 +106,7 @@ theorem p2sh_attribution (H : Addr.Hashes) (c : Cfg) (pubs : List Bytes) (sig : 
   have hseg : (mkKey H c.bech32 p).segH160 = H.hash160 ([0, 20] ++ H.hash160 p) := by
     rw [mkKey_seg_of_33 H _ p hp]; simp [hb]
   have hl : (mkKey H c.bech32 p).segH160.length = 20 := by rw [hseg]; exact hash_len _
-  obtain ⟨j, krj, hj, hje, hsi⟩ := signInput_p2sh H c _ sig i k _ v hkr hl no_cross hb
+  obtain ⟨j, krj, hj, hje, hsi⟩ := signInput_p2sh H c _ sig i k _ v hkr hl hb
   obtain ⟨q, hq, rfl⟩ := keyTable_getElem? H c.bech32 pubs j krj hj
   rw [hseg] at hsi
   rw [hb] at hje hl hseg
@@ -131,15 +121,14 @@ theorem p2sh_attribution (H : Addr.Hashes) (c : Cfg) (pubs : List Bytes) (sig : 
     HASH160(q) = the hash being spent; scriptSig = <sig‖01> <q> -/
 theorem p2pkh_attribution (H : Addr.Hashes) (c : Cfg) (pubs : List Bytes) (sig : SigFn) (i k : Nat) (p : Bytes) (v : Nat)
     (hash_len : ∀ b, (H.hash160 b).length = 20)
-    (hk : pubs[k]? = some p)
-    (no_cross : NoCross (keyTable H c.bech32 pubs)) :
+    (hk : pubs[k]? = some p) :
     ∃ j q, pubs[j]? = some q ∧ H.hash160 q = H.hash160 p ∧
       signInput H c (keyTable H c.bech32 pubs) sig i (some { value := v, script := p2pkhScript (H.hash160 p) }) =
         { scriptSig := some (push1 (sig i (.legacy j (p2pkhScript (H.hash160 p))) ++ [1]) ++ push1 q),
           witness := none, signed := true } := by
   have hkr : (keyTable H c.bech32 pubs)[k]? = some (mkKey H c.bech32 p) := by
     simp [keyTable, List.getElem?_map, hk]
-  obtain ⟨j, krj, hj, hje, hsi⟩ := signInput_p2pkh H c _ sig i k _ v hkr (hash_len _) no_cross
+  obtain ⟨j, krj, hj, hje, hsi⟩ := signInput_p2pkh H c _ sig i k _ v hkr (hash_len _)
   obtain ⟨q, hq, rfl⟩ := keyTable_getElem? H c.bech32 pubs j krj hj
   exact ⟨j, q, hq, by simpa [mkKey] using hje, by simpa [mkKey] using hsi⟩
 
@@ -148,19 +137,6 @@ theorem p2pkh_attribution (H : Addr.Hashes) (c : Cfg) (pubs : List Bytes) (sig :
 namespace Demo
 def unc0 : Bytes := 4 :: List.replicate 64 5
 
-theorem noCrossMixed : NoCross (keyTable H0 c0.bech32 [unc0, pub0]) := by
-  intro k k' kr kr' h1 h2
-  have m1 : kr = mkKey H0 false unc0 ∨ kr = mkKey H0 false pub0 := by
-    match k, h1 with
-    | 0, h1 => left; simpa [keyTable, c0] using h1.symm
-    | 1, h1 => right; simpa [keyTable, c0] using h1.symm
-    | k + 2, h1 => simp [keyTable] at h1
-  have m2 : kr' = mkKey H0 false unc0 ∨ kr' = mkKey H0 false pub0 := by
-    match k', h2 with
-    | 0, h2 => left; simpa [keyTable, c0] using h2.symm
-    | 1, h2 => right; simpa [keyTable, c0] using h2.symm
-    | k + 2, h2 => simp [keyTable] at h2
-  rcases m1 with rfl | rfl <;> rcases m2 with rfl | rfl <;> decide
 end Demo
 
 end GocoinV.WalletTx
